@@ -653,7 +653,7 @@ func reportFailures(cfg *config, all []failure, known []knownFinding, exit *int,
 			k := matchKnown(known, v)
 			out = append(out, reportedViolation{Class: v.Class, Key: v.Key, Replay: f.replayPath, Known: k != nil, Count: len(g.fails)})
 			if k != nil {
-				fmt.Printf("KNOWN-FINDING: property=%s %s\n", cfg.prop, k.text)
+				fmt.Printf("KNOWN-FINDING: %s\n", k.text)
 				continue
 			}
 			*nviol++
@@ -698,7 +698,7 @@ func reportFailures(cfg *config, all []failure, known []knownFinding, exit *int,
 		rv := reportedViolation{Class: v.Class, Key: v.Key, Replay: path, Known: k != nil, Count: len(g.fails)}
 		out = append(out, rv)
 		if k != nil {
-			fmt.Printf("KNOWN-FINDING: property=%s %s\n", cfg.prop, k.text)
+			fmt.Printf("KNOWN-FINDING: %s\n", k.text)
 			continue
 		}
 		*nviol++
@@ -814,6 +814,9 @@ func hasClass(vs []plan.Violation, class, key string) (plan.Violation, bool) {
 }
 
 func replayMain(cfg *config, path string) int {
+	if strings.HasSuffix(path, ".jsonl") {
+		return replayHistory(cfg, path)
+	}
 	p, err := plan.Load(path)
 	if err != nil {
 		fmt.Fprintln(os.Stderr, "replay:", err)
@@ -838,7 +841,7 @@ func replayMain(cfg *config, path string) int {
 	exit := 0
 	for _, vv := range viols {
 		if k := matchKnown(known, vv); k != nil {
-			fmt.Printf("KNOWN-FINDING: property=%s %s\n", p.Property, k.text)
+			fmt.Printf("KNOWN-FINDING: %s\n", k.text)
 			continue
 		}
 		exit = 1
@@ -900,4 +903,52 @@ func rssMB(pid int) int {
 	var size, rss int
 	fmt.Sscanf(string(b), "%d %d", &size, &rss)
 	return rss * os.Getpagesize() / (1 << 20)
+}
+
+// replayHistory re-evaluates a kept history log (cross-process oracle of C06)
+// in fresh processes.
+func replayHistory(cfg *config, path string) int {
+	cfg.prop = "C06"
+	v := cfg.variants[0]
+	fmt.Printf("apdsim: re-evaluating history log %s in fresh processes (build %s)\n", path, v.Label)
+	known := loadKnown(cfg.known)
+	exit := 0
+	for i := 0; i < 3; i++ {
+		cmd := exec.Command(v.Bin(false), "rehist", "-in", path, "-seed", fmt.Sprint(1000+i))
+		cmd.Env = append(os.Environ(), "GOMAXPROCS=1")
+		var out, errb bytes.Buffer
+		cmd.Stdout = &out
+		cmd.Stderr = &errb
+		if err := cmd.Run(); err != nil {
+			fmt.Println("INFRASTRUCTURE:", err, trim(errb.String(), 1000))
+			return 2
+		}
+		for _, line := range strings.Split(out.String(), "\n") {
+			if !strings.HasPrefix(line, "END ") {
+				continue
+			}
+			var r plan.Result
+			if json.Unmarshal([]byte(line[6:]), &r) != nil {
+				continue
+			}
+			for _, vv := range r.Violations {
+				if k := matchKnown(known, vv); k != nil {
+					fmt.Printf("KNOWN-FINDING: %s\n", k.text)
+					continue
+				}
+				exit = 1
+				fmt.Printf("VIOLATION property=C06 replay=%s\n  class=%s key=%s\n", path, vv.Class, vv.Key)
+				for _, l := range strings.Split(trim(vv.Detail, 2000), "\n") {
+					fmt.Println("  | " + l)
+				}
+			}
+		}
+		if exit != 0 {
+			break
+		}
+	}
+	if exit == 0 {
+		fmt.Println("apdsim: history log gives the same outcomes in fresh processes")
+	}
+	return exit
 }
